@@ -132,11 +132,15 @@ class Check:
             lines.append("KNOWN-FINDING: property=%s %s %s:%s:%s %s" % (self.pid, r["rule"], r["file"], r["function"], r["object"], r["message"]))
         vio_paths = []
         seen = set()
+        more = 0
         for i, r in enumerate(self.violations):
             k = (r["rule"], r["file"], r["function"], r["object"])
             if k in seen:
                 continue
             seen.add(k)
+            if len(vio_paths) >= 40:
+                more += 1
+                continue
             p = os.path.join(OUT, "replay", "%s-%s-%d.json" % (self.pid, self.tier, len(vio_paths)))
             with open(p, "w") as fh:
                 json.dump(r, fh, indent=1)
@@ -163,7 +167,7 @@ class Check:
         if broken:
             cov["analysis_broken"] = broken
         ev = {"property_id": self.pid, "tier": self.tier, "seed": seed, "level": "other", "coverage": cov,
-              "assumptions": self.assumptions, "wall_s": round(wall, 2), "violations": len(vio_paths)}
+              "assumptions": self.assumptions, "wall_s": round(wall, 2), "violations": len(vio_paths) + more}
         with open(os.path.join(EVID, self.pid + ".json"), "w") as fh:
             json.dump(ev, fh, indent=1)
             fh.write("\n")
@@ -173,6 +177,8 @@ class Check:
             print("%s:%s: %s [%s] %s: %s" % (r["file"], r["line"], r["function"], r["rule"], r["object"], r["message"]))
             for t in r["trace"][:12]:
                 print("    " + t)
+        if more:
+            print("... and %d further violation(s) not listed" % more)
         for r, p in vio_paths:
             print("VIOLATION property=%s replay=%s" % (self.pid, p))
         if broken:
